@@ -9,7 +9,7 @@ MODULE = "Props.C08"
 THEOREMS = ["C08_count_within_bound", "C08_large_group_passes", "C08_noise_off_floor", "C03_boxMuller_bound", "C10_adjust_sum",
             "C10_microdata_rows", "C12_patch", "C18_outlier_keeps_ranges", "C18_tree_invariant", "C18_rows_partitioned", "C18_forest_trees1", "C18_forest_tree",
             "C10_forest_harvest_conservation", "C08_materialize_rows", "C10_harvest_conservation_strong", "forest_tree_matchingRows", "forest_root_unique",
-            "C08_single_cluster_rows"]
+            "C08_single_cluster_rows", "C08_synthesize_single_rows", "fitTable_size"]
 PARTIAL = ["end to end for one cluster (C08_single_cluster_rows): for a table of N rows with one non-null entity id per row, Forest.init -> tree of any column "
            "combination -> harvest -> microdata yields between N-1-(17 sd+1/2) and N+17 sd+1/2 rows, and none only if N < low_threshold+(gap+8.5) layer_sd - "
            "one theorem from the input table to the row list (exact arithmetic, deviates bounded by 8.5, low_threshold >= 2); what remains outside is the composition "
@@ -66,6 +66,10 @@ def stream_rows(ctx, ntables):
                 n2 = min(t["n"], R.randint(3, 12)); t["df"] = t["df"].iloc[:n2].reset_index(drop=True); t["n"] = n2
             ids = R.sample(range(1, 10 ** 6), t["n"])
             pids = pd.DataFrame({"id": [f"e{i}" for i in ids] if R.random() < 0.5 else ids}); t["pid_mode"] = "explicit-unique"
+            if R.random() < 0.5:       # flattening intervals of very different widths (the compaction to the number of entities has to move the surplus across)
+                from syndiffix.common import FlatteningInterval
+                wide = FlatteningInterval(1, R.choice([6, 8, 12])); lo_ = R.choice([1, 2, 3]); narrow = FlatteningInterval(lo_, lo_ + R.choice([0, 1]))
+                t["ap"] = replace(t["ap"], outlier_count=wide, top_count=narrow) if R.random() < 0.5 else replace(t["ap"], outlier_count=narrow, top_count=wide)
         try:
             out = Synthesizer(t["df"], pids=pids, anonymization_params=t["ap"], bucketization_params=t["bp"], clustering=strat()).sample()
         except RecursionError:
@@ -76,6 +80,17 @@ def stream_rows(ctx, ntables):
         S.count((repr(t["df"].values.tolist()), repr(t["ap"]), strat.__name__, t["pid_mode"]), t["n"] >= t["ap"].low_count_params.low_threshold,
                 {"table": ES.typed_summary(t), "strategy": strat.__name__, "rows_out": len(out)}, tag=strat.__name__)
         oracle_rows(ctx, t, strat.__name__, len(out))
+        if R.random() < 0.35:
+            # the same table and salt synthesized again in this interpreter with other noise levels (larger, then switched off, then default)
+            for nsd in (R.choice([4.0, 6.0]), 0.0, 1.0):
+                t2 = dict(t, ap=replace(t["ap"], layer_noise_sd=nsd))
+                try:
+                    out2 = Synthesizer(t["df"], pids=pids, anonymization_params=t2["ap"], bucketization_params=t["bp"], clustering=strat()).sample()
+                except (RecursionError, ValueError):
+                    break
+                S.count((repr(t["df"].values.tolist()), repr(t2["ap"]), strat.__name__, t["pid_mode"], "again"), True,
+                        {"table": ES.typed_summary(t2), "strategy": strat.__name__, "rows_out": len(out2), "history": "same table and salt, other noise level before"}, tag="noise-level-history")
+                oracle_rows(ctx, t2, strat.__name__ + " (same table and salt synthesized before with another layer_noise_sd)", len(out2))
 
 
 def run(ctx, built):
